@@ -28,7 +28,7 @@ BOUNDS = {
 ASSUMPTIONS = [
     "psi, Laplacian action arbitrary complex; mu real; epsilon in [-1,1]; gamma >= 0; u > 0; dt > 0",
     "exp(-i mu dt) is an arbitrary unit complex number (covers every mu*dt)",
-    "abs_sq_psi = |psi|^2 as the caller (TDGLSolver.update) passes it",
+    "kernel cases: abs_sq_psi is an arbitrary non-negative value of its own (inside the screening loop TDGLSolver.update passes the step-n value with the psi of the previous iterate); retry / stability cases: abs_sq_psi = |psi|^2",
     "exact real arithmetic: rounding of the discriminant near 0 and overflow are outside the claim",
 ]
 OUTSIDE = ["IEEE rounding near discriminant = 0", "overflow / NaN inputs", "cupy branch"]
@@ -63,15 +63,16 @@ class _OpaqueLaplacian:
         return self.action
 
 
-def ref_wz(H, psi, lap, mu, eps, gamma, u, dt):
-    """Documentation eqs. (z) and (w)."""
+def ref_wz(H, psi, lap, mu, eps, gamma, u, dt, absq=None):
+    """Documentation eqs. (z) and (w); `absq` is the |psi^n|^2 the caller hands over (TDGLSolver.update passes the
+    value of step n together with the psi of the previous screening iterate: not necessarily |psi|^2)."""
     if H.mode == "sym":
         U = H.exp_i(-(mu * dt))
-        absq = H.abs2(psi)
+        absq = H.abs2(psi) if absq is None else absq
         root = H.sqrt(1 + gamma * gamma * absq)
     else:
         U = np.exp(-1j * mu * dt)
-        absq = abs(psi) ** 2
+        absq = abs(psi) ** 2 if absq is None else absq
         root = np.sqrt(1 + gamma**2 * absq)
     z = (gamma * gamma / 2) * U * psi
     w = z * absq + U * (psi + (dt / u) * root * ((eps - absq) * psi + lap))
@@ -176,13 +177,17 @@ def body(H, case):
     u = H.real("u", pos=True)
     dt = H.real("dt", pos=True)
     psi_arr = H.array(psi) if H.mode == "sym" else np.array(psi, dtype=complex)
-    absq_arr = H.array([H.abs2(p) for p in psi]) if H.mode == "sym" else np.abs(psi_arr) ** 2
+    # |psi^n|^2 as handed over by the caller: an unknown of its own (>= 0).  Inside the screening loop `update` passes
+    # the step-n value together with the psi of the previous iterate, so it need not be |psi|^2 of the psi argument;
+    # the consistent call is the valuation absq = |psi|^2
+    absq = [H.real(f"absq{i}", nonneg=True) for i in range(n)]
+    absq_arr = H.array(absq) if H.mode == "sym" else np.array(absq, dtype=float)
     lap_arr = H.array(lap) if H.mode == "sym" else np.array(lap, dtype=complex)
     if H.mode == "sym":
         CTX.calls.clear()
     out = TDGLSolver.solve_for_psi_squared(psi=psi_arr, abs_sq_psi=absq_arr, mu=H.array(mu), epsilon=H.array(eps),
                                            gamma=gamma, u=u, dt=dt, psi_laplacian=_OpaqueLaplacian(lap_arr))
-    refs = [ref_wz(H, psi[i], lap[i], mu[i], eps[i], gamma, u, dt) for i in range(n)]
+    refs = [ref_wz(H, psi[i], lap[i], mu[i], eps[i], gamma, u, dt, absq=absq[i]) for i in range(n)]
 
     w_code = z_code = None
     if H.mode == "sym":
